@@ -217,6 +217,11 @@ func Run(r *core.Run, engines []typed.Engine, fams []*rs.Schema) {
 		r.Add("types", 1)
 	})
 	r.Sample(Case{"bindnode", "fam01", "SM05", fams[0].Values(fams[0].T("SM05"), 0)[2]})
+	every := 4
+	if !r.Quick() {
+		every = 1
+	}
+	RunRoutes(r, engines, fams, every)
 }
 
 func Replay(r *core.Run, engines []typed.Engine, fams []*rs.Schema, raw json.RawMessage) {
@@ -232,6 +237,8 @@ func Replay(r *core.Run, engines []typed.Engine, fams []*rs.Schema, raw json.Raw
 			if e.Name() == c.Engine {
 				fs, _ := Check(e, s, c)
 				r.Report("value", c, fs)
+				fs2, _ := CheckRoutes(e, s, c)
+				r.Report("routes", c, fs2)
 			}
 		}
 	}
@@ -320,4 +327,127 @@ func mergeRoutes(fs []core.Finding) []core.Finding {
 		out = append(out, a.f)
 	}
 	return out
+}
+
+// CheckRoutes: the typed value built through every single deviation from the default way of making
+// the assembler calls (AssignNode of prebuilt basicnode / kind-specific / foreign nodes for scalars and
+// containers, keys through AssembleKey+AssignString / AssignNode, size hints), at both levels.
+func CheckRoutes(eng typed.Engine, s *rs.Schema, c Case) (fs []core.Finding, runs int) {
+	t := s.T(c.Type)
+	v := c.Value
+	repr, ok := s.Repr(t, v)
+	if !ok {
+		return nil, 0
+	}
+	site := eng.Name() + "/" + strategy(t)
+	for _, lvl := range []string{"type", "repr"} {
+		tree := s.FeedType(t, v)
+		if lvl == "repr" {
+			tree = repr
+		}
+		opts := ref.RouteOptions(tree)
+		for pos, alts := range opts {
+			for _, a := range alts {
+				routes := ref.Routes{pos: a}
+				var n datamodel.Node
+				var err error
+				pan := core.Guard(func() { n, err = ref.BuildRouted(eng.Proto(s, t.Name, lvl == "repr"), tree, routes, false) })
+				runs++
+				rc := fmt.Sprintf("%s-level route %d@%d", lvl, a, pos)
+				where := fmt.Sprintf("%s %s.%s value %s, %s over tree %s", eng.Name(), s.Name, t.Name, v, rc, tree)
+				cls := fmt.Sprintf("%s:%s", lvl, routeName(tree, pos, a))
+				if pan != "" || err != nil && strings.HasPrefix(err.Error(), "panic") {
+					fs = append(fs, core.F(site+"/route/panic("+cls+")", "%s: %s %v", where, pan, err))
+					continue
+				}
+				if err != nil {
+					// the route is not part of the signature: the same refusal through another way of
+					// making the calls is the same finding (the route is in the detail and the replay)
+					fs = append(fs, core.F(site+"/route/rejects-own-value("+lvl+"|"+rejectClass(err.Error())+")", "%s: %v", where, err))
+					continue
+				}
+				tv, rv, incs, pan := observeTyped(n)
+				if pan != "" {
+					fs = append(fs, core.F(site+"/route/read-panic("+cls+")", "%s: %s", where, pan))
+					continue
+				}
+				for _, inc := range incs {
+					fs = append(fs, core.F(site+"/route/"+inc.Cause+"("+cls+")", "%s: %s", where, inc.Detail))
+				}
+				if !ref.Equal(tv, v) {
+					fs = append(fs, core.F(site+"/route/typeview-differs("+cls+")", "%s: type-level view reads %s", where, tv))
+				}
+				if !ref.Equal(rv, repr) {
+					fs = append(fs, core.F(site+"/route/repr-differs("+cls+")", "%s: representation reads %s", where, rv))
+				}
+			}
+		}
+	}
+	return fs, runs
+}
+
+func routeName(tree ref.Val, pos, a int) string {
+	// kind of the node at preorder position pos
+	idx := 0
+	kind := "scalar"
+	var rec func(v ref.Val)
+	rec = func(v ref.Val) {
+		if idx == pos {
+			if v.K == ref.KMap {
+				kind = "map"
+			} else if v.K == ref.KList {
+				kind = "list"
+			}
+		}
+		idx++
+		for _, c := range v.L {
+			rec(c)
+		}
+		for _, e := range v.M {
+			rec(e.V)
+		}
+	}
+	rec(tree)
+	names := map[int]string{1: "AssignNode(basic)", 2: "AssignNode(foreign)", 3: "hint-1", 4: "hint0", 5: "hint+2", 6: "AssignNode(basic-kind)", 7: "AssembleKey.AssignString", 8: "AssembleKey.AssignNode(basic)", 9: "AssembleKey.AssignNode(foreign)"}
+	return kind + ":" + names[a]
+}
+
+// RunRoutes runs CheckRoutes over the families for the given engines.
+func RunRoutes(r *core.Run, engines []typed.Engine, fams []*rs.Schema, every int) {
+	type job struct {
+		eng typed.Engine
+		s   *rs.Schema
+		t   string
+	}
+	var jobs []job
+	for _, s := range fams {
+		for _, eng := range engines {
+			if eng.Proto(s, "Int", false) == nil {
+				continue
+			}
+			for _, tn := range s.Roots {
+				jobs = append(jobs, job{eng, s, tn})
+			}
+		}
+	}
+	core.ParallelFor(len(jobs), func(i int) {
+		j := jobs[i]
+		vals := j.s.Values(j.s.T(j.t), 0)
+		var lc core.LocalCounters
+		for vi, v := range vals {
+			if every > 1 && vi%every != 0 && vi != len(vals)-1 {
+				continue
+			}
+			c := Case{j.eng.Name(), j.s.Name, j.t, v}
+			fs, runs := CheckRoutes(j.eng, j.s, c)
+			lc.States++
+			lc.Transitions += int64(runs)
+			lc.Traces += int64(runs)
+			lc.Evals += int64(runs)
+			r.NontrivialN(int64(runs))
+			r.Outcome(j.eng.Name() + "/routes")
+			r.Report("routes", c, fs)
+		}
+		r.Merge(&lc)
+	})
 }
